@@ -12,7 +12,7 @@ from mirsym.session import hexs, unhexs
 from . import pp
 from .common import *
 from .markup import is_newline
-from .lists import show_atoms, atoms_modes
+from .lists import show_atoms, atoms_modes, render
 
 CATS = ['arg', 'comma', 'semi', 'space', 'line', 'block']
 
@@ -100,6 +100,30 @@ def explore(S, K, want=('C04', 'C06', 'C05')):
                     if 'C06' in want:
                         ctx.must_hold(keys == toks, 'C06:math-args-arguments-separators-or-comments-not-conserved',
                                       lambda mdl, mode=mode, at=at: dict(describe(mdl), layout=mode, atoms=show_atoms(at)))
+                if 'C03' in want and 'line' not in combo:
+                    # fixed point of the one-line layout: when the arguments come out on one line, the tokens of that line, read again
+                    # (no line break among them any more), must be laid out identically
+                    render.prefer_flat = True
+                    one = []
+                    render(d, False, one)
+                    if ('nl',) not in one:
+                        label = {kids[i + 1].nid: 'x%d' % i for i, c in enumerate(combo) if c == 'arg'}
+                        s1 = line_text(one, label)
+                        kids2, label2 = relex(one, label, kt)
+                        if kids2 is not None:
+                            m2 = S.machine(core, STD, ctx, overrides={'convert_arg': conv_arg, 'is_multiline': (lambda mm, a, ci: False)})
+                            pr2, _ = pp.printer(m2, cfg=cfg)
+                            try:
+                                d2 = m2.call_fn(fn, [pr2, pp.context(), Ast('Args', Node(kt.k('Args'), children=kids2))])
+                            except Panic:
+                                d2 = None
+                            if d2 is not None:
+                                two = []
+                                render(d2, False, two)
+                                s2 = line_text(two, label2)
+                                ctx.must_hold(s1 == s2, 'C03:math-args-one-line-layout-is-not-a-fixed-point',
+                                              lambda mdl, s1=s1, s2=s2: dict(describe(mdl), first_pass=s1, second_pass=s2))
+                                ctx.witness('math args on one line re-read')
                 if 'line' in combo:
                     ctx.witness('math args with line comment')
             ob, ex = S.explore('mathargs[%s]' % ','.join(combo), 'convert_args_in_math over children %r' % (combo,), body, bounds=dict(children=k))
@@ -109,6 +133,76 @@ def explore(S, K, want=('C04', 'C06', 'C05')):
                 return found
     return found
 
+
+def line_text(at, label):
+    out = ''
+    for a in at:
+        if a[0] == 'o':
+            out += label.get(a[2][0], '?')
+        elif a[0] == 't':
+            out += a[1].concrete() if a[1].is_concrete() else '�'
+        elif a == ('nl',):
+            out += '\n'
+    return out
+
+
+def relex(at, label, kt):
+    """the token sequence of a one-line layout (the atoms are tokens 1-1): children of the Args node a second pass would see"""
+    kids = []
+    label2 = {}
+    for a in at:
+        if a[0] == 'o':
+            name = label.get(a[2][0])
+            if name is None:
+                return None, None
+            nd = Node(kt.k('MathIdent'), text=Str.lit(name))
+            label2[nd.nid] = name
+            kids.append(nd)
+        elif a[0] == 't':
+            if not a[1].is_concrete():
+                return None, None
+            s = a[1].concrete()
+            if s.startswith('/*'):
+                kids.append(Node(kt.k('BlockComment'), text=Str.lit(s)))
+                continue
+            for ch in s:
+                if ch == ' ':
+                    if kids and kids[-1].kind == kt.k('Space'):
+                        kids[-1] = Node(kt.k('Space'), text=Str.lit(kids[-1].text.concrete() + ' '))
+                    else:
+                        kids.append(Node(kt.k('Space'), text=Str.lit(' ')))
+                elif ch == ',':
+                    kids.append(Node(kt.k('Comma'), text=Str.lit(',')))
+                elif ch == ';':
+                    kids.append(Node(kt.k('Semicolon'), text=Str.lit(';')))
+                elif ch == '(':
+                    kids.append(Node(kt.k('LeftParen'), text=Str.lit('(')))
+                elif ch == ')':
+                    kids.append(Node(kt.k('RightParen'), text=Str.lit(')')))
+                else:
+                    return None, None
+    if len(kids) < 2 or kids[0].kind != kt.k('LeftParen') or kids[-1].kind != kt.k('RightParen'):
+        return None, None
+    return kids, label2
+
+
+def confirm_fixed_point(S, info):
+    for src in IDEM_CORPUS:
+        if S.driver.call('erroneous', hexs(src))[1] == '1':
+            continue
+        for w in (80, 20):
+            a = S.driver.call('format', hexs(src), w, 2, 0)
+            if a[0] != 'ok':
+                continue
+            b = S.driver.call('format', a[1], w, 2, 0)
+            if b[0] != 'ok' or b[1] != a[1]:
+                return dict(api='format(format(x))', source=src, width=w, first=unhexs(a[1]), second=unhexs(b[1]) if b[0] == 'ok' else b[0],
+                            what='format is not idempotent on %s (width %d): %s then %s' % (show(src), w, show(unhexs(a[1])), show(unhexs(b[1]) if b[0] == 'ok' else b[0])))
+    return None
+
+
+IDEM_CORPUS = ['$ vec(\n  a, b, c\n) $\n', '$vec(\na, b)$\n', '$ mat(\n  1, 2; 3, 4\n) $\n', '$ f(a,\n b) $\n', '$ f(\n  a /* c */, b\n) $\n', '$f(a;\n b;)$\n', '$ vec(a, b, c) $\n',
+               '$ f(\n) $\n', '$ f(\n  a\n) $\n', '$ f( a , b ) $\n']
 
 CORPUS = ['$mat(a // c\n)$\n', '$f(a // c\n)$\n', '$mat(a, b // c\n, d)$\n', '$mat(a /* c */)$\n', '$mat(1, 2; 3, 4)$\n', '$mat(// c\n a)$\n', '$f(a,// c\n b)$\n', '$ f(a // c\n ) $\n',
           '$mat(a; // c\n)$\n', '$vec(a,\n b // c\n)$\n']
@@ -145,6 +239,16 @@ def native_sweep(S, prop):
 
 
 def report(S, prop, found):
+    if prop == 'C03':
+        labs = sorted({lab for lab, info in found if lab.startswith('C03:')})
+        w = confirm_fixed_point(S, None) if labs else None
+        for lab in labs:
+            info = [i for l, i in found if l == lab][0]
+            if w:
+                S.violation(lab, '%s: %s' % (lab, w['what']), dict(api=w, model=info))
+            else:
+                S.inconclusive.append('%s: the solver model (%r) has no reproduction in the native corpus' % (lab, info))
+        return
     labs = sorted({lab for lab, info in found if lab.startswith(prop + ':')})
     if not labs:
         return
